@@ -160,6 +160,7 @@ def display(chk, F, ty):
     chk.count("Display impls")
     g = GRADINGS[ty]
     symbols = {}
+    n_unsupported = 0
     for pa in presence_patterns(ty):
         sp = Spec(ty, absent_set("self", pa))
         key0 = "display|%s%s" % (ty, "" if pa is None else "|presence=" + pres_tag(pa))
@@ -174,6 +175,7 @@ def display(chk, F, ty):
             paths = explore(thunk)
         except Unsupported as ex:
             chk.undecide(key0, "unsupported: %s" % ex, body_loc(F, body))
+            n_unsupported += 1
             continue
         for ctx, (buf, r) in paths:
             pd = path_descr(ctx)
@@ -201,6 +203,8 @@ def display(chk, F, ty):
         chk.ob("display|%s|symbol|%s|parse-safe" % (ty, f), safe, "a number followed by the symbol parses back unambiguously", body_loc(F, body),
                found=repr(s), required="non-empty, first character not in [0-9.eE+-_ ] and not the start of inf/NaN")
     want_parts = [f for f, pd in g["parts"] if pd]
+    if n_unsupported and sorted(flat) != sorted(want_parts):
+        return None     # the formatter left the analysed fragment (recorded above): nothing to conclude about its symbols
     chk.ob("display|%s|all-parts-have-symbols" % ty, sorted(flat) == sorted(want_parts), "every derivative part is rendered with a symbol",
            body_loc(F, body), found=sorted(flat), required=sorted(want_parts))
     return [flat.get(f) for f in want_parts] if sorted(flat) == sorted(want_parts) else None
